@@ -91,6 +91,45 @@ theorem lookup2_some_of_mem_unique {t : List (Quantity × Quantity × Quantity)}
 @[simp] theorem dimQ_unconstify (q : Quantity) : dimQ (unconstify q) = dimQ q := by
   cases q <;> rfl
 
+/-- what holds of every enabled rule and of the final statement holds of the outcome -/
+theorem firstMatch_spec {α : Type} (P : α → Prop) (rs : List (Bool × α)) (d : α)
+    (hr : ∀ r ∈ rs, r.1 = true → P r.2) (hd : P d) : P (firstMatch rs d) := by
+  induction rs with
+  | nil => exact hd
+  | cons r rest ih =>
+    obtain ⟨g, v⟩ := r
+    simp only [firstMatch]
+    split
+    · rename_i hg
+      exact hr (g, v) List.mem_cons_self hg
+    · exact ih (fun r hm => hr r (List.mem_cons_of_mem _ hm))
+
+theorem firstMatch_append {α : Type} (l1 l2 : List (Bool × α)) (d : α) :
+    firstMatch (l1 ++ l2) d = firstMatch l1 (firstMatch l2 d) := by
+  induction l1 with
+  | nil => rfl
+  | cons r rest ih =>
+    obtain ⟨g, v⟩ := r
+    simp only [List.cons_append, firstMatch, ih]
+
+/-- when some rule is enabled the final statement is never reached -/
+theorem firstMatch_spec_enabled {α : Type} (P : α → Prop) (rs : List (Bool × α)) (d : α)
+    (hr : ∀ r ∈ rs, r.1 = true → P r.2) (he : ∃ r ∈ rs, r.1 = true) : P (firstMatch rs d) := by
+  induction rs with
+  | nil => obtain ⟨r, hm, _⟩ := he; simp at hm
+  | cons r rest ih =>
+    obtain ⟨g, v⟩ := r
+    simp only [firstMatch]
+    split
+    · rename_i hg
+      exact hr (g, v) List.mem_cons_self hg
+    · rename_i hg
+      apply ih (fun r hm => hr r (List.mem_cons_of_mem _ hm))
+      obtain ⟨r, hm, hgr⟩ := he
+      rcases List.mem_cons.mp hm with rfl | hm
+      · exact absurd hgr hg
+      · exact ⟨r, hm, hgr⟩
+
 theorem quantity_mem_all (q : Quantity) : q ∈ Quantity.all := by cases q <;> decide
 theorem domain_mem_all (d : Domain) : d ∈ Domain.all := by cases d <;> decide
 
